@@ -98,9 +98,9 @@ def run(ctx):
         "check, so every completed activation has run one (recursion, native-driven iteration). The ranking/reachability "
         "searches are unverified; only their checkers are proved. VALIDATED PER FUNCTION: abort_safe is run on every function "
         "compiled with checker.AdditionalAbortChecks (the REPL's setting) for non-terminating shapes - a grid of 10 contexts x "
-        "38 loop forms (loop, while/until incl. single-line, modifier while/until/for-in, fornum with each of the 8 subsets of its "
+        "37 loop forms (loop, while/until incl. single-line, modifier while/until/for-in, fornum with each of the 8 subsets of its "
         "clauses, for-in over range literal/range value/Int/generator/user iterator/pattern/finite collections/fed channel) x "
-        "labelled|unlabelled x 36 iteration endings (fallthrough, continue in every syntactic position, continue through "
+        "labelled|unlabelled x 35 iteration endings (fallthrough, continue in every syntactic position, continue through "
         "do/finally, continue[label] from nested loops); every run contains the covering design {form x core ending, ending x "
         "family, context x family}, the rest of the grid is sampled; plus recursion, channels, generators, collection-literal "
         "loops - gated - and for the C29 corpus - REPORTED ONLY "
@@ -116,7 +116,12 @@ def run(ctx):
         "(model of PushCtx/PopCtx) was not built. OBSERVED ONLY (c33.dynamic): the same programs run in-process on a fresh "
         "vm.Thread whose Aborter context is cancelled after a delay; the run must return Std::ExecutionAbortedError within "
         "%d ms (the property's 'promptly' is wall-clock; the measured cancel-to-return times are reported, the 1 s figure is "
-        "not gated). Programs that catch the abort error themselves are outside the generated shapes. Blocking natives "
+        "not gated). The dynamic stream runs all special shapes, EVERY grid shape with a statically inconclusive function and a "
+        "seeded sample of the decided ones; programs share a harness process, any outcome other than aborted is re-run alone "
+        "before it is judged. NOT RUN: the four endings that put `continue` inside a catch body / a finally block / after "
+        "`defer` (they overrun the VM value stack on their own, with or without abort checks - a separate defect, reported "
+        "in grid_shapes_not_run_leaky_endings); they are validated statically only. "
+        "Programs that catch the abort error themselves are outside the generated shapes. Blocking natives "
         "without context support (AWAIT_SYNC, sleep, timers) are run and REPORTED in blocking_without_context, not gated." % LIMIT_MS)
     ctx.trusted_base += [
         "hand-written opcode table (harness/cfgx/optable.go): which opcodes are abort checks / context-aware (CHECK_ABORT, SELECT)",
@@ -209,7 +214,12 @@ def run(ctx):
                 addjob("corpus:" + p[0], p[1], "corpus gate=true", delays[0])
         # every special shape, every shape the validator could not decide (mandatory), and a seeded
         # sample of the decided ones: each core-ending cell first, then the rest
-        grid = [(sid, src, tags) for sid, src, tags in shapes if "form=" in tags]
+        # (endings tagged nodyn corrupt the VM's value stack on their own, abort checks or not - see
+        # harness/cfgx/loopgrid.go `leaky`; they are validated statically only)
+        nodyn = set(sid for sid, _, tags in shapes if "nodyn" in tags)
+        for sid in sorted(nodyn & inconclusive):
+            ctx.broke("c33: shape %s is neither decided statically nor runnable" % sid)
+        grid = [(sid, src, tags) for sid, src, tags in shapes if "form=" in tags and sid not in nodyn]
         chosen = [x for x in shapes if "form=" not in x[2]]
         chosen += [x for x in grid if x[0] in inconclusive]
         must = set(x[0] for x in grid if x[0] in inconclusive)
@@ -217,7 +227,7 @@ def run(ctx):
         for k in range(len(rest) - 1, 0, -1):
             j = rng.below(k + 1)
             rest[k], rest[j] = rest[j], rest[k]
-        chosen += rest[:ctx.n(110, 2500)]
+        chosen += rest[:ctx.n(60, 2500)]
         for sid, src, tags in chosen:
             # thorough: a grid shape gets one of the delays (drawn), the special shapes get all of them
             for d in ([delays[rng.below(len(delays))]] if "form=" in tags else delays):
@@ -231,7 +241,7 @@ def run(ctx):
             for jid in batch:
                 f.write("%s\t%s\n" % (jid, jobs[jid][1]))
         rc, out = vlib.sh([h33, "-extra", "dyn", "-input", fn, "-delay", str(d), "-limit", str(LIMIT_MS), "-repo", vlib.REPO],
-                          timeout=60 + 3 * len(batch), env=vlib.elk_env())
+                          timeout=45 + 4 * len(batch), env=vlib.elk_env())
         try:
             os.remove(fn)
         except OSError:
@@ -241,8 +251,13 @@ def run(ctx):
             p = l.split("\t")
             if len(p) >= 3 and p[1].startswith("S ") and p[0] in jobs:
                 res[p[0]] = p[2]
-        if not res:
-            res[batch[0]] = "no-output rc=%d %s" % (rc, out[-200:].replace("\n", " "))
+        if rc != 0:
+            # the process died (fatal runtime error) or was killed by the timeout: the first program
+            # without a line is the one that was running (the harness flushes after every program)
+            for jid in batch:
+                if jid not in res:
+                    res[jid] = "process-died rc=%d %s" % (rc, " ".join(out[-400:].split()))[:300]
+                    break
         return res
 
     # programs that spawn threads / are expected to block run alone; the others share a process
@@ -274,7 +289,8 @@ def run(ctx):
     for res in vlib.parallel_map(run_batch, [[j] for j in suspects], workers=6):
         results.update(res)
 
-    dist = {"confirmed_alone": len(suspects)}
+    dist = {"confirmed_alone": len(suspects), "batch_rounds": rounds,
+            "grid_shapes_not_run_leaky_endings": len(nodyn) if not ctx.replay else 0}
     times = []
     nogate = {}
     distinct = set()
